@@ -2440,7 +2440,10 @@ void QXmppJingleRtpEncryption::parse(const QDomElement &element)
         if (QXmppJingleRtpCryptoElement::isJingleRtpCryptoElement(childElement)) {
             QXmppJingleRtpCryptoElement cryptoElement;
             cryptoElement.parse(childElement);
-            d->cryptoElements.append(std::move(cryptoElement));
+            // crypto-suite and key-params are required (and toXml() writes only complete elements)
+            if (!cryptoElement.cryptoSuite().isEmpty() && !cryptoElement.keyParams().isEmpty()) {
+                d->cryptoElements.append(std::move(cryptoElement));
+            }
         }
     }
 }
